@@ -8,7 +8,7 @@ from contracts.lib import *  # noqa
 
 LEVEL = "proof"
 MANIFEST_ENTRY = {
-    "text": "Unbounded proof, for all byte-string inputs, that every tagged derivation in hashutil and every chain built on it (client/file/bucket lease secrets, write enabler, mutable key chain in the cap constructors, SecretHolder, MutableFileNode secrets) computes exactly SHA256d(netstring(TAG) + body)[:L] with the tags, argument order and truncation of the deployed format. Additionally, with the list shape bounded to 2 candidate servers (labelled bounded, level-B obligations): Tahoe2ServerSelector._create_trackers creates every upload ServerTracker with the bucket renewal/cancel derivations of the file renewal/cancel secrets and the lease seed of that same server.",
+    "text": "Unbounded proof, for all byte-string inputs, that every tagged derivation in hashutil and every chain built on it (client/file/bucket lease secrets, write enabler, mutable key chain in the cap constructors, SecretHolder, MutableFileNode secrets) computes exactly SHA256d(netstring(TAG) + body)[:L] with the tags, argument order and truncation of the deployed format. Additionally, with the list shape bounded to 2 candidate servers (labelled bounded, level-B obligations): Tahoe2ServerSelector._create_trackers creates every upload ServerTracker with the bucket renewal/cancel derivations of the file renewal/cancel secrets and the lease seed of that same server. ServerTracker.query (unbounded, all byte strings) sends exactly those secrets, renewal before cancel, with the tracker's storage index and allocated size in its allocate_buckets request.",
     "note": "SHA-256 is an uninterpreted function, so the proof is equality of the hash INPUT and truncation for all inputs; the tag constants in the contract are the deployed format's (the source comments call any change a compatibility break). RSA DER serialisation and AES are opaque.",
 }
 EXPLANATION = "Each real function is executed symbolically and its result compared with an independently written specification term."
@@ -488,11 +488,91 @@ class UploadTrackerSecrets(_Hash):
         return [("canary", T(made[0][1]) == T(made[0][2]))]
 
 
+class TrackerQuery(_Hash):
+    """ServerTracker.__init__ + ServerTracker.query: the allocate_buckets request carries the storage index, the bucket
+    RENEWAL secret, the bucket CANCEL secret (in that order), the share numbers asked for and the tracker's allocated size --
+    the values the tracker was created with, for all of them."""
+    file = "allmydata/immutable/upload.py"
+    fn = "ServerTracker"
+    nargs = 3     # storage index, renewal secret, cancel secret
+    raises = ()
+
+    @property
+    def qualname(self):
+        return "ServerTracker.query"
+
+    def config(self):
+        from contracts.lib import stub
+        wbp = lambda I, a, k: stub("wbp", get_allocated_size=lambda I_, a_, k_: 4242)
+        ov = {"layout.make_write_bucket_proxy": wbp, "upload.Referenceable": lambda I, a, k: "canary", "referenceable.Referenceable": lambda I, a, k: "canary"}
+        return {"overrides": ov, "concrete_overrides": ov}
+
+    def run(self, I, a):
+        from contracts.lib import stub
+        calls = []
+
+        def allocate(I_, args, kw):
+            calls.append((tuple(args), dict(kw)))
+            return stub("deferred", addCallback=lambda I2, a2, k2: None)
+        ss = stub("storage_server", allocate_buckets=allocate)
+        server = stub("server", get_storage_server=lambda I_, a_, k_: ss)
+        t = I.call_value(self.module().ServerTracker, [server, 1000, 100, 10, 4, a["a0"], a["a1"], a["a2"], 500], {})
+        I.call_value(I.get_attr(t, "query"), [set([3, 7])], {})
+        return tuple(calls)
+
+    def native(self, a):
+        from allmydata.immutable.upload import ServerTracker
+        calls = []
+
+        class D(object):
+            def addCallback(self, f):
+                return self
+
+        class SS(object):
+            def allocate_buckets(self, *args, **kw):
+                calls.append((args, kw))
+                return D()
+
+        class Server(object):
+            def get_storage_server(self):
+                return SS()
+
+        def f():
+            t = ServerTracker(Server(), 1000, 100, 10, 4, a["a0"], a["a1"], a["a2"], 500)
+            t.query(set([3, 7]))
+            return tuple(calls), t.allocated_size
+        out = native_outcome(f)
+        if out.kind == "return":
+            self._native_alloc = out.value[1]
+            out.value = out.value[0]
+        return out
+
+    def ensures(self, I, a, out):
+        calls = out.value
+        if len(calls) != 1 or len(calls[0][0]) != 5:
+            return [("exactly-one-allocate-buckets-request-with-five-positional-arguments", z3.BoolVal(False))]
+        (si, renew, cancel, sharenums, size), kw = calls[0]
+        if I is None:
+            return [("request-carries-the-trackers-storage-index", z3.BoolVal(si == a["a0"])),
+                    ("renewal-secret-in-the-renewal-position", z3.BoolVal(renew == a["a1"])),
+                    ("cancel-secret-in-the-cancel-position", z3.BoolVal(cancel == a["a2"])),
+                    ("request-names-the-share-numbers-asked-for", z3.BoolVal(set(sharenums) == {3, 7})),
+                    ("request-reserves-the-write-proxys-allocated-size", z3.BoolVal(size == self._native_alloc))]
+        return [("request-carries-the-trackers-storage-index", T(si) == T(a["a0"])),
+                ("renewal-secret-in-the-renewal-position", T(renew) == T(a["a1"])),
+                ("cancel-secret-in-the-cancel-position", T(cancel) == T(a["a2"])),
+                ("request-names-the-share-numbers-asked-for", z3.BoolVal(set(sharenums) == {3, 7})),
+                ("request-reserves-the-write-proxys-allocated-size", z3.BoolVal(size == 4242))]
+
+    def canary(self, I, a, out):
+        return [("canary", T(out.value[0][0][1]) == T(out.value[0][0][2]))]
+
+
 def contracts(tier):
     cs = [Tagged(f) for f in SINGLE] + [SecretAsTag(f) for f in SECRET_AS_TAG] + [Pair(f) for f in PAIR]
     cs += [WriteEnabler(), SecretHolderChain(), MutableNodeSecrets()]
     cs += [CapKeyChain("WriteableSSKFileURI", "write"), CapKeyChain("WriteableMDMFFileURI", "write"),
            CapKeyChain("ReadonlySSKFileURI", "read"), CapKeyChain("ReadonlyMDMFFileURI", "read"),
            CapKeyChain("CHKFileURI", "chk")]
-    cs += [UploadTrackerSecrets()]
+    cs += [UploadTrackerSecrets(), TrackerQuery()]
     return cs
